@@ -95,7 +95,7 @@ def run(ctx):
             rng.shuffle(removed)
             sel = qs if tier == "thorough" else [q for k, q in enumerate(qs) if (k + nstates) % 3 == 0]
             ops = [("rm", p - 1) for p in removed] + [("q", x, y) for x, y in sel]
-            a, b, mname = MAPS[nstates % len(MAPS)]
+            a, b, mname = MAPS[(nstates // 2) % len(MAPS)]            # (quick runs every second state: the rotation must not be tied to that parity)
             e = run_history(sg, paths, n, rev, ops, a, b)
             ctx.count((repr(paths), n, rev, tuple(sorted(live)), mname))
             evs.append(e)
